@@ -13,6 +13,7 @@ INFO = dict(
     "init_record + rollout; every executed compiled step is compared with the async step of the same node and sequence number (eps, seq, times as float32, rng, state, windows: seq/ts/payload, output). "
     "Non-trivial: the graph has >=1 blocking and >=1 skipped connection, a window > 1 and mixed rates",
     trusted=[
+        "Lean machine level (every schedule): every window entry of a recorded async step is a default entry or the sender's recorded output of that sequence number (Async/Payload.lean)",
         "Lean: dataflow evaluation is independent of the order among valid schedules; async windows = last-w-consumed (Props/C01.lean); the supergraph library and JAX control flow are modelled, not verified",
         "correspondence: harness/compiledcheck.py; probe nodes harness/rt.py",
     ],
